@@ -30,6 +30,25 @@ static uint64_t acc_h = 14695981039346656037ULL; static size_t acc_len;
 static unsigned char *mem_block; static size_t mem_block_size, mem_used; static int mem_mode;
 static archive_write_callback *orig_writer;
 
+/* The clock, the process id and the random source are inputs of the writers (C11): pin them.
+ * These definitions in the executable take precedence over libc's / libarchive's. */
+#include <time.h>
+time_t time(time_t *t) { if (t) *t = 1700000000; return 1700000000; }
+pid_t getpid(void) { return 4242; }
+int archive_random(void *buf, size_t nbytes);
+int archive_random(void *buf, size_t nbytes) { memset(buf, 0x5A, nbytes); return ARCHIVE_OK; }
+
+/* Scribble over the stack below the current frame so that an uninitialised local of the
+ * library reads this pattern (chosen per run by VERIF_STACK_POISON) and not stale zeros. */
+static int stack_pat = -1;
+static void __attribute__((noinline)) scribble(void)
+{
+	volatile unsigned char big[192 * 1024];
+	if (stack_pat < 0) { const char *e = getenv("VERIF_STACK_POISON"); stack_pat = e ? atoi(e) & 0xff : 0; }
+	memset((void *)big, stack_pat, sizeof big);
+	__asm__ volatile("" : : "r"(big) : "memory");
+}
+
 static uint64_t mix(uint64_t h, uint64_t x) { return (h ^ x) * 1099511628211ULL; }
 
 static void ev_reset(void) { ev_n = 0; ev_h = 14695981039346656037ULL; ev_bad = 0; }
@@ -121,6 +140,7 @@ static void c_op(char *line)
 	static char *w[MAXANS + 8];
 	int n = vh_split(line, w, MAXANS + 8);
 	ev_reset();
+	scribble();
 	if (n == 1 && !strcmp(w[0], "new")) {
 		if (a) archive_write_free(a);
 		a = archive_write_new(); freed = 0;
@@ -157,6 +177,8 @@ static void c_op(char *line)
 		else if (!strcmp(w[1], "uu")) r = archive_write_add_filter_uuencode(a);
 		else r = archive_write_add_filter_by_name(a, w[1]);
 		printf("filter %s\n", vh_st(r));
+	} else if (n == 2 && !strcmp(w[0], "opt")) {
+		printf("opt %s\n", vh_st(archive_write_set_options(a, w[1])));
 	} else if (n == 2 && !strcmp(w[0], "opener")) {
 		opener_ret = atoi(w[1]); printf("ok\n");
 	} else if (n == 2 && !strcmp(w[0], "bpb")) {
@@ -231,6 +253,8 @@ static void c_end(void)
 
 int main(int argc, char **argv)
 {
+	/* some writers look at the time zone */
+	setenv("TZ", "UTC", 1);
 	struct vh_engine e = { c_begin, c_op, c_end };
 	return vh_main(argc, argv, &e);
 }
